@@ -438,7 +438,7 @@ func (e *Engine) appendBuiltin(st *State, s *SliceV, t Value, elem types.Type, s
 					}
 					es[k] = mergeV(Ult(K, sa.Len), fromOld, fromNew)
 				}
-				l := e.alloc(st, &ArrayV{E: es})
+				l := e.alloc(st, &ArrayV{E: es, T: elem})
 				out.A = append(out.A, SliceAlt{G: gre, Base: l, Off: BVu(0, 64), Len: newLen, Cap: newLen})
 			}
 		}
